@@ -311,3 +311,11 @@ _EDITS11 = [
 for _k, _a, _b in _EDITS11:
     assert _a in TEXTS[_k][0], (_k, _a[:40], TEXTS[_k][0][:120])
     TEXTS[_k] = (TEXTS[_k][0].replace(_a, _b, 1), TEXTS[_k][1])
+
+_EDITS12 = [
+ ("C01", "With a full ring an unforced set may be dropped (C09).", "With a full ring an unforced set may be dropped (C09). Through any history of threads and drain steps the "
+  "collector's batch is exactly the commands popped along it, in pop order (nothing enters a batch except by a pop, nothing popped is left out or reordered)."),
+]
+for _k, _a, _b in _EDITS12:
+    assert _a in TEXTS[_k][0], (_k, _a[:40], TEXTS[_k][0][:120])
+    TEXTS[_k] = (TEXTS[_k][0].replace(_a, _b, 1), TEXTS[_k][1])
